@@ -351,3 +351,67 @@ def tags(J):
                 name = list(b)[0]
                 t.append("block=%s%s" % (name, ("/len%d" % b[name]["length"]) if "length" in b[name] else ""))
     return t
+
+
+def gen_st2094(lcg):
+    """a structurally valid ST 2094-10 ITU-T T.35 SEI payload (CM data or DM data), written from the syntax in
+    dolby_vision/src/st2094_10/itu_t35/*.rs' doc reference (DASH-IF IOP, Dolby Vision): every loop and option
+    exercised; EXTREME applies to the exp-Golomb codes as for RPUs"""
+    seed(lcg)
+    w = BW()
+    w.u(8, 0xB5); w.u(16, 0x31); w.u(32, 0x47413934)
+    kind = pick(8, 8, 8, 9)
+    w.u(8, kind)
+    if kind == 9:
+        w.ue(uev() % 50); w.ue(uev() % 50)
+        refresh = pick(True, True, False)
+        w.bit(refresh)
+        if refresh:
+            gen_container(w, [1, 2, 4, 5, 6, 255])
+    else:
+        w.u(4, val(4)); w.u(4, val(4))
+        denom = pick(0, 1, 5, 23, 23, 32, 40, 64, 65, 2**32 + 5)
+        w.ue(denom)
+        L = denom % 2**32
+        bl, el, hdr = pick(0, 2, 8, 8, 9), pick(0, 2, 2, 8, 9), pick(0, 4, 8)
+        w.ue(bl); w.ue(el); w.ue(hdr)
+        dis = pick(True, False)
+        w.bit(dis)
+        elb = (el + 8) if el <= 8 else 10
+        ns = []
+        for _ in range(3):
+            n = pick(0, 0, 1, 3, 7)
+            ns.append(n)
+            w.ue(n)
+            for _ in range(n + 2):
+                w.u(elb, val(elb))
+
+        def frac():
+            if 0 < L <= 64:
+                w.u(L, val(L))
+
+        for n in ns:
+            for _ in range(n + 1):
+                idc = pick(0, 0, 1, 1, 2, 5)
+                w.ue(idc)
+                if idc == 0:
+                    order = pick(0, 1, 1, 2, 5)
+                    w.ue(order)
+                    for _ in range(order + 2):
+                        w.se(sev()); frac()
+                elif idc == 1:
+                    order = pick(0, 1, 2, 3)
+                    w.u(2, order)
+                    w.se(sev()); frac()
+                    for _ in range(order + 1):
+                        for _ in range(7):
+                            w.se(sev()); frac()
+        if not dis:
+            for _ in range(3):
+                w.u(elb, val(elb))
+                w.ue(uev()); frac(); w.ue(uev()); frac(); w.ue(uev()); frac()
+        # trailing bits / bytes as an encoder would leave them
+        w.bit(1)
+    w.align()
+    out = w.bytes() + bytes(R.randint(0, 255) for _ in range(pick(0, 0, 1, 4)))
+    return out
